@@ -119,6 +119,11 @@ func Start(o Options) (*Env, error) {
 			return nil, err
 		}
 	}
+	if os.Getenv("VERIF_NOHOOKS") == "1" {
+		// race-detector runs: the hook sink serialises every hook point on one mutex, which orders all proxy
+		// goroutines and hides unsynchronised accesses from the detector
+		o.Hooks = false
+	}
 	if o.Hooks {
 		e.Sink = NewSink(t)
 		proxycore.SetVerifHook(e.Sink.Handle)
